@@ -126,9 +126,30 @@ def estimate(rec, tap, meth, force, case, family):
             rec.check(i == tap.last["size"] // 2, "%s/nan-fallback" % meth,
                       "raw NaN but result %r != centre %d"
                       % (i, tap.last["size"] // 2), case)
+    # the same request asking for the details dictionary (as the
+    # preprocessing step does with ret_details=True): same index, no
+    # exception, also where the fallback applies
+    if family == "degenerate" or DETAIL_COUNTER[0] % 4 == 0:
+        rec.event("estimates requested with ret_details=True")
+        try:
+            out = poc.compute_poc(f0.copy(), meth, ret_details=True)
+            i2 = out[0] if isinstance(out, tuple) else out
+            rec.check(isinstance(out, tuple) and len(out) == 2 and
+                      isinstance(out[1], dict) and i2 == i,
+                      "%s/%s/details-variant-differs" % (family, meth),
+                      "%s with ret_details=True returned %r, without %r"
+                      % (meth, i2 if not isinstance(out, tuple) else out[0],
+                         i), case)
+        except BaseException as e:  # noqa
+            rec.violation("%s/%s/raises-with-details/%s"
+                          % (family, meth, classify_exc(e)),
+                          "%s with ret_details=True raised %s: %s"
+                          % (meth, type(e).__name__, str(e)[:100]), case)
+    DETAIL_COUNTER[0] += 1
     return int(i) if ok else None
 
 
+DETAIL_COUNTER = [0]
 MTAP = None          # fitlab.MinimizeTap, installed by run_shard / replay
 ABORTS = {}
 
